@@ -1140,7 +1140,9 @@ func spenderIndexRule(p *Program, r *Report, rule string) {
 // pushes / inputs, one of which may be in the filter.
 func c10loopExits(p *Program, r *Report, matcher *ssa.Function) {
 	mname := FnName(matcher)
-	positive := func(cs []Cond) bool {
+	var positive func(cs []Cond) bool
+	seenPhi := map[*ssa.Phi]bool{}
+	positive = func(cs []Cond) bool {
 		for _, c := range cs {
 			v, truth := c.V, c.Truth
 			for {
@@ -1149,6 +1151,36 @@ func c10loopExits(p *Program, r *Report, matcher *ssa.Function) {
 					continue
 				}
 				break
+			}
+			// a found-flag: a bool φ that is true only along edges which themselves lie behind a positive test
+			if ph, ok := v.(*ssa.Phi); ok && truth && !seenPhi[ph] {
+				seenPhi[ph] = true
+				all, any := true, false
+				for i, e := range ph.Edges {
+					if k, isK := constBool(e); isK && !k {
+						continue
+					}
+					pb := ph.Block().Preds[i]
+					ecs := MustCondsAtBlock(matcher, pb)
+					if ec, ok := edgeCond(pb, ph.Block()); ok {
+						ecs = append(ecs, ec)
+					}
+					if k, isK := constBool(e); isK && k {
+						any = true
+						if !positive(ecs) {
+							all = false
+						}
+					} else if !positive(append(ecs, Cond{e, true, pb})) {
+						all = false
+					} else {
+						any = true
+					}
+				}
+				delete(seenPhi, ph)
+				if all && any {
+					return true
+				}
+				continue
 			}
 			call, ok := v.(*ssa.Call)
 			if !ok || !truth {
